@@ -15,4 +15,21 @@ let () =
       List.iter (fun (_, r) -> let r = int_of_z r in recv.(r) <- recv.(r) + 1) msgs;
       "recv:" ^ String.concat "" (Array.to_list (Array.map (fun c -> " " ^ string_of_int c) recv))
       ^ " | cb:" ^ String.concat "" (List.init n (fun _ -> " 1"))
+    | "arr" :: ini :: n :: root :: me :: sched ->
+      (* the model under the same schedule as the harness: the listed steps, then round-robin until both
+         threads have finished; a step of a finished (or absent) thread is not counted, like cos_step *)
+      let ini = int_of_string ini and n = int_of_string n and root = int_of_string root and me = int_of_string me in
+      let fin t s = let ((((((c, m), _), _), _), _), _) = s in
+        if t = 0 then int_of_nat c = 6 else int_of_nat m = 5 in
+      let steps = [| 0; 0 |] in
+      let stp s t = if t < 0 || t > 1 || fin t s then s else (steps.(t) <- steps.(t) + 1; step s (nat_of_int t)) in
+      let s = List.fold_left stp (init (nat_of_int ini)) (List.map int_of_string sched) in
+      let rec rr s k = if finished s || k > 1000 then s else rr (stp (stp s 0) 1) (k + 1) in
+      let s = rr s 0 in
+      let ((((((_, _), tp), l), p), d), _) = s in
+      let ch = if int_of_nat d >= 1 then children (z_of_int n) (z_of_int root) (z_of_int me) else [] in
+      Printf.sprintf "done=%d cb=%d parked=%d lockfree=%d state=%d steps=%d,%d children:%s"
+        (if finished s then 1 else 0) (int_of_nat d) (int_of_nat p) (if int_of_nat l = 0 then 1 else 0)
+        (match int_of_nat tp with 3 -> 4 | 2 -> 2 | _ -> 1) steps.(0) steps.(1)
+        (String.concat "" (List.map (fun c -> " " ^ string_of_int (int_of_z c)) ch))
     | _ -> "<bad case>")
